@@ -221,7 +221,7 @@ func genC10(t *rapid.T) C10Case {
 		if i > 0 && g.Chance(1, 4) { // identical requests running simultaneously
 			c.Reqs = append(c.Reqs, c.Reqs[g.Int(0, i-1)])
 		} else {
-			o := GenOpts{MaxBiases: 3, ValueMode: -1, MaxAlts: 5, AllowProb: true}
+			o := GenOpts{MaxBiases: 3, ValueMode: -1, MaxAlts: 5, AllowProb: true, BiasLikeIds: true}
 			if g.Chance(1, 2) {
 				o.Methods = heuristicMethods // generated level series, thresholds
 			}
